@@ -508,6 +508,81 @@ func (g *gen) histTTL() {
 	os.RemoveAll(dir)
 }
 
+// histBigVal: key/value histories with segments of 32-64 KiB and values whose
+// size and content sit on block boundaries (0, 1, 4095, 4096, 4097, 8192,
+// 12288 bytes; all zero bytes, all 0xFF, or a pattern), with quiescent
+// backups, shadow reopens, real reopens and merges.  Long values are recorded
+// as length + digest.
+func (g *gen) histBigVal() {
+	mode := modeOf(g.c.Mode, g.r)
+	rw := rwOf(g.c.RW, g.r)
+	seg := int64(32*1024 + g.r.Intn(3)*16*1024)
+	dir := fmt.Sprintf("%s/db-%d", g.c.Tmp, g.hist)
+	os.RemoveAll(dir)
+	g.u = &hx.Universe{KvBuckets: []string{"b1", "b2"}}
+	g.newSess(dir, mode, rw, seg)
+	g.s.R.Emit(hx.Ev{"op": "reset", "mode": int(mode), "rw": int(rw), "seg": seg, "hist": g.hist, "family": "bigval",
+		"sync": g.s.Opt.SyncEnable, "load": int(g.s.Opt.StartFileLoadingMode)})
+	if err := g.s.OpenFirst(); err != nil {
+		fmt.Fprintln(os.Stderr, "harness: first open failed:", err)
+		os.Exit(2)
+	}
+	sizes := []int{0, 1, 17, 4095, 4096, 4097, 8191, 8192, 12288}
+	mk := func() []byte {
+		n := sizes[g.r.Intn(len(sizes))]
+		v := make([]byte, n)
+		switch g.r.Intn(3) {
+		case 0: // zeros
+		case 1:
+			for i := range v {
+				v[i] = 0xFF
+			}
+		default:
+			for i := range v {
+				v[i] = byte('a' + i%23)
+			}
+		}
+		return v
+	}
+	keys := []string{"a", "ab", "b", "k1", "k2"}
+	for i := 0; i < g.c.Steps; i++ {
+		g.update(func(t *hx.Tx) {
+			n := 1 + g.r.Intn(3)
+			for j := 0; j < n; j++ {
+				b, k := pick(g.r, g.u.KvBuckets), []byte(pick(g.r, keys))
+				if g.r.Intn(6) == 0 {
+					t.Delete(b, k)
+				} else {
+					t.Put(b, k, mk(), 0)
+				}
+			}
+		})
+		g.view(func(t *hx.Tx) {
+			b := pick(g.r, g.u.KvBuckets)
+			for _, k := range keys {
+				t.Get(b, []byte(k))
+			}
+			t.GetAll(b)
+		})
+		switch g.r.Intn(6) {
+		case 0:
+			g.s.Backup(dir + "-backup")
+		case 1:
+			g.s.Shadow(dir + "-shadow")
+		case 2:
+			g.s.MergeObs(dir + "-shadow")
+		case 3:
+			if !g.reopenCompare([]string{"kv"}) {
+				return
+			}
+		}
+	}
+	g.s.Obs()
+	g.s.Backup(dir + "-backup")
+	g.s.Close()
+	os.RemoveAll(dir)
+}
+
 // ---------------------------------------------------------------- data structures
 
 func (g *gen) idx(n int) int { return g.r.Intn(2*n+4) - n - 2 } // -n-2 .. n+1
@@ -1219,6 +1294,8 @@ func main() {
 			g.histFill()
 		case "ttl":
 			g.histTTL()
+		case "bigval":
+			g.histBigVal()
 		case "bptree": // component check of the in-memory B+ tree (several levels)
 			g.histBPTree()
 		case "conc": // C14: several databases, mixed readers and writers
@@ -1255,6 +1332,8 @@ func main() {
 			g.histCrashCont([]string{"kv"})
 		case "crashmerge": // C16
 			g.histCrash(crashOpts{kinds: []string{"kv", "list", "set", "zset"}, merges: true, allTorn: g.c.AllTorn})
+		case "crashmergemany": // C16: more than ten data files when Merge starts
+			g.histCrash(crashOpts{kinds: []string{"kv"}, merges: true, many: true, allTorn: g.c.AllTorn})
 		case "crashmergekv":
 			g.histCrash(crashOpts{kinds: []string{"kv"}, merges: true, allTorn: g.c.AllTorn})
 		case "crashmergeds":
